@@ -13,9 +13,25 @@ C->S : NIfTI files with exactly known rational affines (signed permutations,
        rationals; Trace_Affine judges size, channels, data type, sharding
        record, resolution = 10^6 |column|, the placement identity at the
        corners and centre, and the round trip of the compact URL form.
+       Further case classes (each judged by the same oracle clauses):
+       * header voxel size != affine: files whose pixdim disagrees with the
+         column norms of the sform (sform edited without touching pixdim; qform
+         absent or an axis-aligned scanner qform) - the file's affine is what
+         nibabel reports as img.affine, the resolution x transform composition
+         must reproduce IT;
+       * one loaded image object used for several generations (every info
+         case): nibabel_image_to_info, again with the other sharding choice,
+         then store_nibabel_image_to_fullres_info - every result is judged;
+       * kind "rerun": --generate-info twice on one destination with two
+         different volumes (other file, or same data with a corrected header),
+         the destination holding the first pair / only transform.json / only
+         info_fullres.json before the second run: a run that reports success
+         leaves a pair describing the volume just given; a refusing run on a
+         consistent pair leaves a consistent pair (earlier or new volume).
 """
 import itertools
 import json
+import random
 from fractions import Fraction as Fr
 
 import numpy as np
@@ -30,7 +46,11 @@ RULE = ("one evaluation = one file through --generate-info and nibabel_image_to_
         "through the compact formatter) judged by TLC; an affine is non-trivial when it is not a "
         "positive diagonal (permutation, flip, rotation or shear) or has anisotropic voxels; "
         "distinct = distinct (direction matrix, voxel sizes, translation, shape, layout, dtype, "
-        "scaling, sharding) tuples / distinct matrices")
+        "scaling, sharding, header pixdim/qform) tuples / distinct matrices; every info evaluation "
+        "judges 4 generations (tool, API, the same image object again with the other sharding choice, "
+        "the storing function on that object); a rerun evaluation = two tool runs on one destination "
+        "with two volumes of different affines, distinct = distinct (volume 1, volume 2, destination "
+        "state before the second run) tuples")
 
 
 def signed_perms():
@@ -141,12 +161,55 @@ def make_plan(rng, nrng, kind, sp, D=None):
     return p, data
 
 
+def make_zoom_plan(rng, nrng, kind, sp):
+    """a file whose header voxel size (pixdim) disagrees with the column norms
+    of its sform affine on at least one axis"""
+    p, data = make_plan(rng, nrng, kind, sp)
+    while True:
+        style = rng.random()
+        if style < 0.25:
+            pix = [Fr(1)] * 3                      # pixdim never filled in
+        elif style < 0.5:
+            pix = list(p["vs"])                    # one axis stale
+            pix[rng.randrange(3)] = rng.choice(VS)
+        else:
+            pix = [rng.choice(VS) for _ in range(3)]
+        if pix != list(p["vs"]):
+            break
+    p["pixdim"] = pix
+    p["qform"] = rng.choice(["unknown", "scanner"])
+    return p, data
+
+
+GEOMETRY_KEYS = ("kind", "D", "vs", "a", "A", "nifti")
+
+
+def make_rerun_plans(rng, nrng, sp):
+    """two volumes with different affines for one destination: an unrelated
+    file, or the same data with a corrected header"""
+    kinds = ["perm", "rot", "shear"]
+    p1, d1 = make_plan(rng, nrng, rng.choice(kinds), sp)
+    while True:
+        p2, d2 = make_plan(rng, nrng, rng.choice(kinds), sp)
+        if (p2["A"], p2["a"]) != (p1["A"], p1["a"]):
+            break
+    variant = "other_file"
+    if rng.random() < 0.5:
+        variant = "corrected_header"
+        q = dict(p1)
+        for k in GEOMETRY_KEYS:
+            q[k] = p2[k]
+        p2, d2 = q, d1
+    return variant, p1, d1, p2, d2
+
+
 def plan_json(p):
     q = dict(p)
     for k in ("D", "A"):
         q[k] = [[str(x) for x in row] for row in p[k]]
-    for k in ("vs", "a"):
-        q[k] = [str(x) for x in p[k]]
+    for k in ("vs", "a", "pixdim"):
+        if k in p:
+            q[k] = [str(x) for x in p[k]]
     return q
 
 
@@ -154,8 +217,9 @@ def plan_from_json(q):
     p = dict(q)
     for k in ("D", "A"):
         p[k] = [[Fr(x) for x in row] for row in q[k]]
-    for k in ("vs", "a"):
-        p[k] = [Fr(x) for x in q[k]]
+    for k in ("vs", "a", "pixdim"):
+        if k in q:
+            p[k] = [Fr(x) for x in q[k]]
     return p
 
 
@@ -171,6 +235,7 @@ def sig_of(p, res, clause, case):
             "affine_kind": p["kind"], "layout": p["layout"], "dtype": p["dtype"],
             "nifti_version": p["nifti"], "scaled": p.get("slope") is not None,
             "ignore_scaling": bool(p.get("ignore_scaling")), "sharding": bool(p.get("sharding")),
+            "pixdim_disagrees": bool(p.get("pixdim")), "qform": p.get("qform", "same"),
             "exc": res.get("exc", ""), "where": res.get("where", ""), "srcs": srcs,
             "nonrat": sorted({n for o in case["obs"] for n in o.get("nonrat", [])})}
 
@@ -204,9 +269,25 @@ def run(ctx):
         "denominator; floats printed by the tool are re-encoded as the simplest rational within 1e-9 "
         "relative distance (absolute floor: 1e-9 of the smallest voxel size) and judged exactly",
         "NIfTI-1 stores the sform in float32: NIfTI-1 files are used only for affines that float32 "
-        "represents exactly, NIfTI-2 (float64 sform) otherwise; 'the file's affine' is the sform",
+        "represents exactly, NIfTI-2 (float64 sform) otherwise; 'the file's affine' is the sform, i.e. "
+        "what nibabel reports as img.affine (the harness verifies this on the written file for the "
+        "pixdim and rerun classes); 'the voxel size' is the voxel size of that affine (its column "
+        "norms), also when the header's pixdim says otherwise",
+        "'the info generated from a volume file' covers every generation, also a second or third one "
+        "from an image object that was already used (only the sharding option is varied between "
+        "them); that the image object itself is left unchanged is NOT demanded",
+        "reruns on one destination (statement silent, weaker reading): a run that reports success "
+        "(no exception, exit 0 or 4) must leave info_fullres.json + transform.json describing the "
+        "volume just given; a run that refuses on a destination holding a consistent pair must leave "
+        "a pair describing the earlier or the new volume; a refusing run on a destination that held "
+        "only one of the two files is not judged",
         "'a data type able to hold its values' is judged on the actual value range of the image "
         "(after header scaling unless --ignore-scaling); images hold float32-exact values",
+        "generated lengths of 131072 case units (131 mm) or more and matrix entries of 1024 or more do "
+        "not fit the 32-bit fixed point: they are reported to TLC by name; Affine!WithinReach (checked "
+        "by TLC on every case) shows that no true quantity of the case is that large, so such an entry "
+        "fails the resolution / placement clause; the undecidable remainder (thin axis and large matrix "
+        "entries) is a machinery failure, never a verdict",
         "the placement identity is evaluated at the 8 corner voxels and the centre voxel (MC_Affine "
         "shows this determines every voxel when all extents are >= 2)",
         "compact form: parsing = JSON after replacing '_' by ','; matrices are compared as exact "
@@ -231,23 +312,42 @@ def run(ctx):
     for kind, n in (("rot", ctx.pick(110, 2500)), ("shear", ctx.pick(110, 2500))):
         for _ in range(n):
             plans.append(make_plan(rng, nrng, kind, sp))
+    # further case classes draw from their own generators so that the cases
+    # above stay the same for a given VERIF_SEED
+    rng2 = random.Random(ctx.seed * 1000003 + 16 + 7919)
+    nrng2 = ctx.np_rng(2)
+    n_first = len(plans)
+    for k in range(ctx.pick(36, 900)):
+        plans.append(make_zoom_plan(rng2, nrng2, ("perm", "rot", "shear")[k % 3], sp))
+    reruns = []
+    for k in range(ctx.pick(24, 600)):
+        reruns.append((ad.PRE_STATES[k % 3],) + make_rerun_plans(rng2, nrng2, sp))
     done = []
     transforms = []
     for p, data in plans:
         case, res, tr = ad.run_info_case(work, p, data)
         done.append((p, res, case, data))
         transforms.append(tr)
+    transforms = transforms[:n_first]
+    rdone = []
+    for (pre, variant, p1, d1, p2, d2) in reruns:
+        case, results = ad.run_rerun_case(work, p1, d1, p2, d2, pre)
+        rdone.append((pre, variant, p1, d1, p2, d2, case, results))
     cmats = compact_matrices(ctx, transforms[::max(1, len(transforms) // ctx.pick(60, 600))])
     cdone = [(M,) + ad.compact_case(M) for M in cmats]
-    cases = [c for (_, _, c, _) in done] + [c for (_, c, _, _) in cdone]
+    cases = [c for (_, _, c, _) in done] + [c for (_, c, _, _) in cdone] + [r[6] for r in rdone]
     verdicts = ctx.judge("Trace_Affine", cases, workers=12, chunk=3000)
     classes = {}
+    for tid, (st, clause, _) in verdicts.items():
+        if st != "ok" and clause.startswith("machinery:"):
+            raise tlc.MachineryError("Trace_Affine could not judge case %s: %s" % (tid, clause))
     for (p, res, case, data) in done:
         ctx.count()
         if is_nontrivial(p):
             ctx.nontrivial(json.dumps([plan_json(p)[k] for k in ("D", "vs", "a")]
                                       + [case["shape"], p["layout"], p["dtype"], p.get("slope"),
-                                         p.get("ignore_scaling"), p.get("sharding")]))
+                                         p.get("ignore_scaling"), p.get("sharding")]
+                                      + ([plan_json(p)["pixdim"], p["qform"]] if p.get("pixdim") else [])))
         st, clause, _ = verdicts[case["tid"]]
         if st != "ok":
             sg = sig_of(p, res, clause, case)
@@ -264,7 +364,29 @@ def run(ctx):
             ctx.violation(clause, {"tool": "matrix_as_compact_urlsafe_json", "clause": clause,
                                    "exc": res["exc"]},
                           {"matrix_hex": case["M"], "compact": text, "parsed": case["parsed"]})
+    rerun_outcomes = {}
+    for (pre, variant, p1, d1, p2, d2, case, results) in rdone:
+        ctx.count()
+        ctx.nontrivial(json.dumps(["rerun", pre] + [[plan_json(p)[k] for k in ("D", "vs", "a")]
+                                                    + [p["layout"], p["dtype"], p.get("sharding")]
+                                                    for p in (p1, p2)]))
+        run2 = case["second"]["run"]
+        ok2 = "success" if run2["outcome"] == "ok" and run2["exit"] in (0, 4) else "refused"
+        rerun_outcomes["%s/%s" % (pre, ok2)] = rerun_outcomes.get("%s/%s" % (pre, ok2), 0) + 1
+        st, clause, _ = verdicts[case["tid"]]
+        if st != "ok":
+            ck = "%s pre=%s second_run=%s" % (clause, pre, ok2)
+            classes[ck] = classes.get(ck, 0) + 1
+            ctx.violation(clause, {"tool": "volume-to-precomputed --generate-info (rerun on one destination)",
+                                   "clause": clause, "pre": pre, "variant": variant, "second_run": ok2,
+                                   "exit1": case["first"]["run"]["exit"], "exit2": run2["exit"],
+                                   "exc": results[1].get("exc", ""), "where": results[1].get("where", "")},
+                          {"rerun": {"pre": pre, "variant": variant, "plan1": plan_json(p1),
+                                     "plan2": plan_json(p2), "data1": data_to_json(d1),
+                                     "data2": data_to_json(d2)},
+                           "runs": results, "case": case})
     ctx.notes["violation_classes"] = classes
+    ctx.notes["rerun_cases_by_destination_state_and_second_run"] = rerun_outcomes
     ctx.notes["info_cases"] = {
         "total": len(done), "signed_permutations": sum(1 for d in done if d[0]["kind"] == "perm"),
         "rotations": sum(1 for d in done if d[0]["kind"] == "rot"),
@@ -273,7 +395,10 @@ def run(ctx):
         "rgb": sum(1 for d in done if d[0]["layout"] == "rgb"),
         "4d": sum(1 for d in done if d[0]["layout"] == "4d"),
         "with_sharding_option": sum(1 for d in done if d[0].get("sharding")),
-        "header_scaled": sum(1 for d in done if d[0].get("slope") is not None)}
+        "header_scaled": sum(1 for d in done if d[0].get("slope") is not None),
+        "pixdim_disagrees_with_affine": sum(1 for d in done if d[0].get("pixdim")),
+        "generations_judged_per_case": "file, api, api2 (same image object, other sharding), store "
+                                       "(same image object, storing function)"}
     ctx.notes["compact_cases"] = len(cdone)
     for (p, res, case, data) in done[:2]:
         ctx.sample({"plan": plan_json(p), "obs_file": {k: case["obs"][0].get(k) for k in
@@ -290,6 +415,13 @@ def replay(ctx, path):
     if "matrix_hex" in d:
         M = [[float.fromhex(x) for x in row] for row in d["matrix_hex"]]
         case, res, text = ad.compact_case(M)
+    elif "rerun" in d:
+        rr = d["rerun"]
+        p1, p2 = plan_from_json(rr["plan1"]), plan_from_json(rr["plan2"])
+        d1 = data_from_json(dict(p1, in_dtype=p1["dtype"]), rr["data1"])
+        d2 = data_from_json(dict(p2, in_dtype=p2["dtype"]), rr["data2"])
+        work = ctx.scratch("verif_affine_")
+        case, _ = ad.run_rerun_case(work, p1, d1, p2, d2, rr["pre"])
     else:
         p = plan_from_json(d["plan"])
         q = dict(p, in_dtype=p["dtype"])
